@@ -24,4 +24,8 @@ CHECKS.update({
    note=_EXP_NOTE + ' The exception message formatting (str(spawn)) and the per-transport EOF conditions are exercised by the direct oracle / belong to C06.',
    technique='Coq proof over hand-written model + in-Coq correspondence + direct oracle', ref='DESIGN.md section 5 C04'),
 })
+CHECKS['C19'] = dict(
+   text='Refinement theorems (Coq, closed under the global context): every one of the 27 screen operations, with arbitrary integer arguments, on any well-shaped screen, changes exactly the cells and cursor/saved-cursor/scroll-region fields that a documentation-level reference (grid function, each operation defined cell by cell) changes; lifted by induction to all operation sequences, together with the shape invariant (rows x cols, cursor and scroll region on the screen); get_abs reads that grid. Unbounded in screen size, arguments and sequence length.',
+   note='Trusted: Coq kernel; hand-written model Screen/Model.v of screen.py, tied to the code by job screen-ops (whole state and accessors compared after every operation on generated sequences); the reference Screen/Spec.v is our cell-wise reading of the docstrings (where they are silent - vacated row of a scroll, cursor_up_reverse at the top - it follows the source and says so); dump/str/pretty/get_region are compared by correspondence and the reference-grid oracle, not by a theorem; characters are single code points.',
+   technique='Coq refinement proof (model vs cell-wise reference) + in-Coq correspondence + reference-grid oracle', ref='DESIGN.md section 5 C19')
 NOT_YET = {}
